@@ -226,6 +226,20 @@ fn c16_raw() -> Vec<(String, String)> {
     add("raw_shared_skips", "#[logos(skip \" +\", skip \"\\t+\")] #[logos(skip \"#[a-z]*\")] enum T { #[token(\"a\")] #[token(\"b\")] AB, #[token(\"c\")] C }");
     add("raw_shared_cb", "#[logos(skip(\" +\", sk), skip(\"\\n+\", sk))] enum T { #[regex(\"[a-z]+\", cb)] #[regex(\"[A-Z]+\", cb)] W(u8), #[regex(\"[0-9]+\", cb)] N(u8), #[token(\"x\", |_| 1)] #[token(\"y\", |_| 1)] XY(u8), #[token(\"=\")] #[token(\":=\")] Eq }");
     add("raw_shared_many", "enum T { #[token(\"a\")] #[token(\"b\")] #[token(\"c\")] #[token(\"d\")] #[token(\"e\")] Abc, #[token(\"f\")] #[token(\"g\")] #[token(\"h\")] Fgh, #[token(\"i\")] #[token(\"j\")] Ij, #[token(\"k\")] #[token(\"l\")] Kl, #[token(\"m\")] M }");
+    // MANY TABLE COLUMNS that agree outside some loop's class: k loops over a shared core class plus a
+    // range of their own, and a loop over all those ranges that leaves through the core class (whatever
+    // picks "a column that will do" among several has a choice here)
+    for k in 2..=5usize {
+        let prefixes = ['#', '@', '%', '&', '!'];
+        let ranges = ["a-c", "d-f", "g-i", "j-l", "m-o"];
+        let mut body = String::new();
+        for i in 0..k {
+            body.push_str(&format!("#[regex(\"{}[0-9A-Z_{}]+\")] L{i}, ", prefixes[i], ranges[i]));
+        }
+        body.push_str("#[regex(\"[a-o]+[0-9A-Z_]\")] W, #[regex(\"[p-z]+[0-9A-Z_]?\")] V");
+        add(&format!("raw_lut_cols{k}"), &format!("enum T {{ {body} }}"));
+        add(&format!("raw_lut_cols{k}b"), &format!("#[logos(utf8 = false)] enum T {{ {body} }}"));
+    }
     // EXACT REPEATS of an item next to distinct ones (anything that folds repeats through a hash
     // container loses the written order): repeated skips, repeated attributes on one variant and on
     // several variants, repeated subpatterns / type items, in lists of 3 to 10 items
